@@ -152,8 +152,9 @@ type World struct {
 	liveProbe        int
 	colProbe         int
 	sharedSentinel   error
-	simItems         []*simBase    // mutable items created so far
-	Template         *tabular.Cell // a cell value prepared outside (shared BY VALUE between tables)
+	simItems         []*simBase      // mutable items created so far
+	Template         *tabular.Cell   // a cell value prepared outside (shared BY VALUE between tables)
+	Other            *tabular.ATable // a second table some rows were also added to (C09 only)
 
 	// callbacks (C13)
 	regs         []*SimCallback
@@ -491,6 +492,23 @@ func (w *World) Do(st *Step) bool {
 			p.SetProperty(tmplKeys[pick(len(tmplKeys), st.B)], st.B) // re-set a key the template came with
 		}
 		w.probe("template_cell_added_by_value")
+	case "attachOther":
+		// the same *Row is also added to a SECOND table (nothing forbids it).  The
+		// model does not follow what that means for either table; only C09 uses
+		// this step, and only asks that nothing panics afterwards.
+		i := pick(len(w.handles), st.A)
+		if i < 0 {
+			return true
+		}
+		h := w.handles[len(w.handles)-1-i]
+		if h.real == nil {
+			return true
+		}
+		if w.Other == nil {
+			w.Other = tabular.New()
+		}
+		w.Other.AddRow(h.real)
+		w.probe("row_attached_to_a_second_table")
 	case "mutate":
 		// the caller changes an item after storing it and does NOT call Update
 		i := pick(len(w.simItems), st.A)
